@@ -76,9 +76,13 @@ package typeutil
 //@ trusted
 //@ pure
 
+// the hash of a term set is the commutative sum TermSum: permuting the terms does not change it
 //@ func (hasher).hashTermSet
-//@ trusted
+//@ prop C19
 //@ pure
+//@ nosafety
+//@ loop 0 invariant hash == TermSum(h, terms, rangeidx + 1)
+//@ ensures result == TermSum(h, terms, len(terms))
 
 //@ func (hasher).hashTypeParam
 //@ prop C19
